@@ -164,7 +164,7 @@ func Check(r *ev.Run, replay string) {
 		progen.F4(f4, y)
 		progen.F5(y)
 		progen.F6(y)
-		progen.C02(r.Thorough(), y)
+		progen.C02Corpus(r.Thorough(), y)
 		progen.F7(y)
 		progen.F4c(2, y)
 		progen.F8(false, y)
